@@ -1,7 +1,91 @@
+import AuModel.Products
+import AuModel.UnitKey
 import Driver.Util
+import Driver.Cmd.C02
+import Driver.Cmd.C06
+
+/-! Driver commands for C14.
+
+  prod <mul|div> <R1> <R2> <unblocked 0|1> <sexpr1> ; <sexpr2>
+       →  dim=<pack> mag=<pack> raw=<0|1> allowed=<0|1>
+  sdiv <RT> <RQ> <unblocked 0|1> <sexpr>       (scalar / quantity)
+       →  dim=<pack> mag=<pack> allowed=<0|1>
+  qpow <R> <num>/<den> <sexpr>                 (int_pow<N>, sqrt, cbrt)
+       →  dim=<pack> mag=<pack> allowed=<0|1>
+  asraw <R> <sexpr>                            →  allowed=<0|1>
+-/
 open Au
 
-def dispatchC14 : List String → Option String
+def parseTwo (toks : List String) : Option (Parsed × Parsed) :=
+  match splitOnTok ";" toks with
+  | [a, b] => do
+    let (pa, ra) ← parseExpr a
+    let (pb, rb) ← parseExpr b
+    if ra.isEmpty && rb.isEmpty then pure (pa, pb) else none
   | _ => none
+where splitOnTok (sep : String) : List String → List (List String)
+  | [] => [[]]
+  | t :: rest =>
+    match splitOnTok sep rest with
+    | [] => [[t]]
+    | g :: gs => if t == sep then [] :: g :: gs else (t :: g) :: gs
 
-/-! Driver commands for C14. -/
+def cmdProd (args : List String) : String :=
+  match args with
+  | op :: r1 :: r2 :: ub :: rest =>
+    match parseRep? r1, parseRep? r2, parseTwo rest with
+    | some r1, some r2, some (pa, pb) =>
+      let env := envOf (pa.atoms ++ pb.atoms)
+      let a := pa.expr.eval U.keyLt
+      let b := pb.expr.eval U.keyLt
+      let unblocked := ub == "1"
+      if op == "mul" then
+        let u := U.mul U.keyLt a b
+        s!"dim={dimKey (u.dimOf env)} mag={magKey (u.magOf env)} raw={b01 (productIsRaw env U.keyLt a b)} allowed=1"
+      else if op == "div" then
+        let u := U.div U.keyLt a b
+        s!"dim={dimKey (u.dimOf env)} mag={magKey (u.magOf env)} raw={b01 (quotientIsRaw env U.keyLt a b)} allowed={b01 (quantityDivAllowed r1 r2 (U.qEquiv env a b) unblocked)}"
+      else "bad-op"
+    | _, _, _ => "bad-op"
+  | _ => "bad-op"
+
+def cmdSdiv (args : List String) : String :=
+  match args with
+  | rt :: rq :: ub :: rest =>
+    match parseRep? rt, parseRep? rq, parseExpr rest with
+    | some rt, some rq, some (p, []) =>
+      let env := envOf p.atoms
+      let a := p.expr.eval U.keyLt
+      let u := a.pow (-1)
+      s!"dim={dimKey (u.dimOf env)} mag={magKey (u.magOf env)} allowed={b01 (scalarOverQuantityAllowed rt rq (a.isUnitless env) (ub == "1"))}"
+    | _, _, _ => "bad-op"
+  | _ => "bad-op"
+
+def cmdQpow (args : List String) : String :=
+  match args with
+  | r :: q :: rest =>
+    match parseRep? r, parseRat? q, parseExpr rest with
+    | some r, some q, some (p, []) =>
+      let env := envOf p.atoms
+      let u := (p.expr.eval U.keyLt).pow q
+      let allowed := if q.den = 1 then intPowAllowed r q.num else true
+      s!"dim={dimKey (u.dimOf env)} mag={magKey (u.magOf env)} allowed={b01 allowed}"
+    | _, _, _ => "bad-op"
+  | _ => "bad-op"
+
+def cmdAsRaw (args : List String) : String :=
+  match args with
+  | r :: rest =>
+    match parseRep? r, parseExpr rest with
+    | some r, some (p, []) =>
+      let env := envOf p.atoms
+      s!"allowed={b01 (asRawNumberAllowed env (p.expr.eval U.keyLt) r)}"
+    | _, _ => "bad-op"
+  | _ => "bad-op"
+
+def dispatchC14 : List String → Option String
+  | "prod" :: args => some (cmdProd args)
+  | "sdiv" :: args => some (cmdSdiv args)
+  | "qpow" :: args => some (cmdQpow args)
+  | "asraw" :: args => some (cmdAsRaw args)
+  | _ => none
